@@ -212,7 +212,8 @@ def check_pair(case):
     fails = []
     ctx = dict(case=case, dense=not case['sparse'])
     try:
-        vals, vecs = call_lb(lb, K, KG, silent=True, sparse_solver=bool(case['sparse']), num_eigvalues=case['num'])
+        vals, vecs = call_lb(lb, K, KG, silent=not (case['n'] == 12 and case.get('spec') == 'separated'), sparse_solver=bool(case['sparse']),
+                             num_eigvalues=case['num'])
     except NoAnswer:
         return dict(fails=[], nontrivial=0, no_answer=1, execs=3, transitions=3)
     except Exception as e:
